@@ -75,10 +75,10 @@ def mentionsFrom (inp : Input) : List Mention :=
   p.fromStmts.flatMap (stmtMentions inp .dest .src (fun c => c.wr.ty))
 
 /-- hypotheses: Go-valid selectors on both sides; mapper methods only with an embedded mapper type; no
-    statement reads a setter (F_setOnlyRead) or maps named non-struct types recursively (F_namedScalarSub) -/
+    statement reads a setter (the claim sites refuse setters on the reading side; kept as a checked clause
+    because the claim logs are characterised under unique matching only) -/
 def closedHyps (inp : Input) : Bool :=
   wfSelectors inp.src && wfSelectors inp.dest && (inp.fns.isEmpty || inp.mapperPtr.isSome) &&
-  !F_namedScalarSub inp &&
   ((plan inp).st.toC ++ (plan inp).st.fromC).all (fun c => !c.rd.isSet) &&
   (((plan inp).destCtor.getD []) ++ ((plan inp).srcCtor.getD [])).all (fun a => match a.rd with | some rd => !rd.isSet | none => true)
 
@@ -105,9 +105,13 @@ theorem walkNested_names (pre : List String) (d : Nat) (t : Tree) :
   | nil => simp [walkNested]
   | field fd rest ih =>
     intro f hf
-    simp only [walkNested, List.mem_cons] at hf
-    rcases hf with rfl | hf
-    · exact ⟨⟨pre ++ [fd.name], d, fd⟩, by simp [leavesAt], rfl⟩
+    simp only [walkNested, List.mem_append] at hf
+    rcases hf with hf | hf
+    · split at hf
+      · cases hf
+      · simp only [List.mem_singleton] at hf
+        subst hf
+        exact ⟨⟨pre ++ [fd.name], d, fd⟩, by simp [leavesAt], rfl⟩
     · obtain ⟨l, hl, e⟩ := ih pre d f hf
       exact ⟨l, by simp [leavesAt, hl], e⟩
   | embed n p body rest ihb ihr =>
@@ -145,7 +149,7 @@ theorem walkTop_names (t : Tree) : ∀ f ∈ walkTop t, ∃ l ∈ leavesOf t, l.
 
 theorem flatten_names (t : Tree) : ∀ f ∈ flatten t, ∃ l ∈ leavesOf t, l.decl.name = f.name := by
   intro f hf
-  have := foldl_aor_names_sub (walkTop t) [] f.name (List.mem_map_of_mem hf)
+  have := foldl_aor_names_sub (walkTop t) [] f.name (List.mem_map_of_mem (flatten_sub t hf))
   rcases this with h | h
   · cases h
   · obtain ⟨g, hg, e⟩ := List.mem_map.mp h
@@ -186,7 +190,7 @@ theorem sideField_declared (inp : Input) (side : Pkg) (hw : wfSelectors (inp.tre
       g.isGet = false ∧ g.isSet = false ∧ (goResolve (inp.tree side) g.name).isSome = true := by
     intro g hg
     have hg' := (List.mem_filter.mp hg).1
-    have hfl := foldl_aor_flags _ [] (walkTop_flags (inp.tree side)) (by simp) g hg'
+    have hfl := foldl_aor_flags _ [] (walkTop_flags (inp.tree side)) (by simp) g (flatten_sub _ hg')
     obtain ⟨l, hl, e⟩ := flatten_names _ g hg'
     simp only [wfSelectors, List.all_eq_true, Bool.and_eq_true] at hw
     exact ⟨hfl.1, hfl.2, e ▸ (hw l hl).1.1⟩
@@ -220,7 +224,7 @@ theorem sideField_write_declared (inp : Input) (side : Pkg) (hw : wfSelectors (i
       g.isSet = false ∧ (goResolve (inp.tree side) g.name).isSome = true := by
     intro g hg
     have hg' := (List.mem_filter.mp hg).1
-    have hfl := foldl_aor_flags _ [] (walkTop_flags (inp.tree side)) (by simp) g hg'
+    have hfl := foldl_aor_flags _ [] (walkTop_flags (inp.tree side)) (by simp) g (flatten_sub _ hg')
     obtain ⟨l, hl, e⟩ := flatten_names _ g hg'
     simp only [wfSelectors, List.all_eq_true, Bool.and_eq_true] at hw
     exact ⟨hfl.2, e ▸ (hw l hl).1.1⟩
@@ -386,15 +390,27 @@ theorem args_declared (inp : Input) (rdSide : Pkg) (hw : wfSelectors (inp.tree r
 theorem map_closed (inp : Input) (h : closedHyps inp = true) :
     (mentionsTo inp ++ mentionsFrom inp).all (declared inp) = true := by
   simp only [closedHyps, Bool.and_eq_true, Bool.not_eq_true', List.all_eq_true] at h
-  obtain ⟨⟨⟨⟨⟨hws, hwd⟩, hm⟩, hns⟩, hrdset⟩, hargset⟩ := h
+  obtain ⟨⟨⟨⟨hws, hwd⟩, hm⟩, hrdset⟩, hargset⟩ := h
   obtain ⟨w0D, w0S, hinv⟩ := plan_inv inp
-  have hstruct : ∀ c ∈ (plan inp).st.toC ++ (plan inp).st.fromC, isSubStrat c.strat = true →
-      (elemOf c.rd.ty).isStructNamed = true ∧ (elemOf c.wr.ty).isStructNamed = true := by
-    intro c hc hsub
-    simp only [F_namedScalarSub, List.any_eq_false] at hns
-    have h1 := hns c hc
-    rw [hsub] at h1
-    simpa using h1
+  -- a recursive mapping is only ever chosen for STRUCT types of the two packages
+  have hstruct : ∀ (rdPkg wrPkg : Pkg) (c : Claim), justified inp.conv (indexed inp.fns) rdPkg wrPkg c →
+      isSubStrat c.strat = true → (elemOf c.rd.ty).isStructNamed = true ∧ (elemOf c.wr.ty).isStructNamed = true := by
+    intro rdPkg wrPkg c hj hsub
+    unfold justified at hj
+    cases hst : c.strat with
+    | assign => simp [hst, isSubStrat] at hsub
+    | conv => simp [hst, isSubStrat] at hsub
+    | func k => simp [hst, isSubStrat] at hsub
+    | sub r w =>
+      rw [hst] at hj
+      obtain ⟨_, _, h1, h2⟩ := hj
+      exact ⟨by rw [elemOf_of_strip_named _ _ h1]; exact isNamedIn_struct _ _ h1,
+             by rw [elemOf_of_strip_named _ _ h2]; exact isNamedIn_struct _ _ h2⟩
+    | each r w =>
+      rw [hst] at hj
+      obtain ⟨e1, e2, h1, h2, _, _, hn1, hn2⟩ := hj
+      rw [h1, h2]
+      exact ⟨isNamedIn_struct _ _ hn1, isNamedIn_struct _ _ hn2⟩
   have hargset' : ∀ args, ((plan inp).destCtor = some args ∨ (plan inp).srcCtor = some args) →
       ∀ a ∈ args, ∀ rd, a.rd = some rd → rd.isSet = false := by
     intro args hor a ha rd hrd
@@ -436,7 +452,7 @@ theorem map_closed (inp : Input) (h : closedHyps inp = true) :
             · have := hrdset c (List.mem_append_left _ hcl)
               rw [hd] at this; cases this
           · exact sideField_write_declared inp .dest hwd c.wr hmp.2.1 (hinv.toIn c hcl).2.2
-      · exact strat_declared_to inp hm c hpair.2 (fun hs => (hstruct c (List.mem_append_left _ hcl) hs).1) m hmc
+      · exact strat_declared_to inp hm c hpair.2 (fun hs => (hstruct _ _ c hpair.2 hs).1) m hmc
   · -- FromX
     unfold mentionsFrom at hmem
     rcases List.mem_append.mp hmem with hpre | hst
@@ -449,10 +465,10 @@ theorem map_closed (inp : Input) (h : closedHyps inp = true) :
         exact this
       | some args =>
         simp only [hc, List.mem_cons] at hpre
-        have hcm : (ctorMatch inp.conv inp.fns (canNameMatch [] inp.ic) (sideFields inp.dest inp.destNew) (sideParams inp.src inp.srcNew) inp.manualR).2 = some args := hc
+        have hcm : (ctorMatch inp.conv inp.fns (fun f p => inp.nm p f) (sideFields inp.dest inp.destNew) (sideParams inp.src inp.srcNew) inp.readKeys).2 = some args := hc
         rcases hpre with rfl | hpre
         · simpa [declared, Input.isNew] using ctor_side_new _ _ _ _ _ _ _ _ hcm
-        · exact args_declared inp .dest hwd hm _ _ inp.manualR _ args (Prod.ext rfl hcm) (hargset' args (Or.inr hc)) m hpre
+        · exact args_declared inp .dest hwd hm _ _ inp.readKeys _ args (Prod.ext rfl hcm) (hargset' args (Or.inr hc)) m hpre
     · obtain ⟨c, hc, hmc⟩ := List.mem_flatMap.mp hst
       have hcl := (stmts_sub hc).1
       have hpair := hinv.fromPair c hcl
@@ -468,7 +484,7 @@ theorem map_closed (inp : Input) (h : closedHyps inp = true) :
             · have := hrdset c (List.mem_append_right _ hcl)
               rw [hd] at this; cases this
           · exact sideField_write_declared inp .src hws c.wr hmp.1 (hinv.fromIn c hcl).2.2
-      · exact strat_declared_from inp hm c hpair.2 (fun hs => (hstruct c (List.mem_append_right _ hcl) hs).2) m hmc
+      · exact strat_declared_from inp hm c hpair.2 (fun hs => (hstruct _ _ c hpair.2 hs).2) m hmc
 
 
 /-- name under which Props/C01.lean can state it: `shoot map`, closedness — under `closedHyps` every field
@@ -491,14 +507,15 @@ def exClosed : Input :=
 
 example : closedHyps exClosed = true := by decide +kernel
 example : mentionsTo exClosed =
-    [.ctor .dest, .field .src "ID", .field .src "Name",
+    [.ctor .dest, .field .src "ID", .mapperFn 0, .field .src "Name",
      .field .src "Sub", .field .dest "Sub", .subMethod (.named .src "Sub" (.struct "N:int"))] := by decide +kernel
 example : (mentionsFrom exClosed).contains (.getter .dest "Id") = true ∧
     (mentionsFrom exClosed).contains (.ptrPath .src ["Base"]) = true := by decide +kernel
 
-/-- the hypotheses matter: a set-only field on the reading side (F_setOnlyRead) is outside them -/
+/-- a set-only field on the reading side is no longer read as a method value (was F_setOnlyRead): the
+    hypotheses hold, FromX mentions nothing of it -/
 example : closedHyps { src := .field { name := "Wo", ty := .basic "int" } .nil,
-                       dest := .field { name := "wo", ty := .basic "int", set := true } .nil, destNew := true } = false := by
+                       dest := .field { name := "wo", ty := .basic "int", set := true } .nil, destNew := true } = true := by
   decide +kernel
 
 end ShootVerif.Mapper
